@@ -244,7 +244,9 @@ func GoLangOpts() *LanguageOpts {
 		result := make([]string, 0, len(imports))
 		for k, v := range imports {
 			_, name := path.Split(v)
-			if name != k {
+			// the alias is spelled out for a path that ends in a major version (…/v2): the go tools take the
+			// element before it for the package name, unless they find the package on disk
+			if name != k || versionedPkgRex.MatchString(name) {
 				result = append(result, fmt.Sprintf("\t%s %q", k, v))
 			} else {
 				result = append(result, fmt.Sprintf("\t%q", v))
